@@ -248,3 +248,10 @@ Example C09_example :
 Proof.
   destruct ex_run_ok as (A & B & C & D). repeat split; try assumption. exact d_id_non_expanding.
 Qed.
+
+(* the numbers and tables this property's model uses are the ones the sources declare: Model/GenConsts.v is
+   regenerated from the repository under test (tools/consts) before every build *)
+From V Require Import Model.GenConsts Proofs.TieC09.
+Theorem C09_constants_are_the_sources : TieC09.tie.
+Proof. exact TieC09.tie_holds. Qed.
+Print Assumptions C09_constants_are_the_sources.
